@@ -31,6 +31,8 @@ def enumerate_faults(d):
         out.append({"kind": "update_missing", "at": s})
         out.append({"kind": "update_key_swapped", "at": s})
     out.append({"kind": "update_extra", "at": NEW})
+    for other in (U[:1] + C[:1]):
+        out.append({"kind": "update_extra_declared", "at": other})  # an update expression for a control / calibration symbol
     for u in U:
         out.append({"kind": "overlap_control_calibration", "at": u})
         out.append({"kind": "pnoise_missing", "at": u})
@@ -84,6 +86,8 @@ def apply_fault(d, f):
         d["state_model"].pop(at, None)
     elif k == "update_extra":
         d["state_model"][at] = "Symbol('%s')" % d["state"][0]
+    elif k == "update_extra_declared":
+        d["state_model"][at] = "Symbol('%s')" % at
     elif k == "update_key_swapped":
         if at in d["state_model"]:
             d["state_model"] = {(NEW + "_k" if key == at else key): v for key, v in d["state_model"].items()}
